@@ -40,10 +40,26 @@ def junk_text(draw):
 # ---------------------------------------------------------------- (a) command lines
 @st.composite
 def btcdeb_cmd(draw):
-    kind = draw(st.sampled_from(['script', 'script', 'script-z', 'script-junk', 'spend', 'spend-mutated', 'spend-witshape', 'spend-witshape', 'spend-shapes', 'spend-shapes', 'p2sh-plain', 'tx-only', 'options', 'select', 'stdin-edge']))
+    kind = draw(st.sampled_from(['script', 'script', 'script-z', 'script-junk', 'spend', 'spend-mutated', 'spend-witshape', 'spend-witshape', 'spend-shapes', 'spend-shapes', 'p2sh-plain', 'tx-only', 'options', 'select', 'stdin-edge', 'inline']))
     argv, stdin = [], b''
     comp = kind
-    if kind in ('script', 'script-z'):
+    if kind == 'inline':
+        # inline function expressions as the script (stdin or argv), inside a bracketed script, as stack arguments and in the --pretend-valid list
+        e = draw(inline_expr())
+        where = draw(st.sampled_from(['stdin', 'argv', 'bracket', 'stack', 'pretend']))
+        if where == 'stdin':
+            stdin = e.encode() + b'\n'
+        elif where == 'argv':
+            argv += [e]
+        elif where == 'bracket':
+            stdin = ('[OP_1 %s OP_DROP]' % e).encode() + b'\n'
+        elif where == 'stack':
+            stdin = b'[OP_DROP OP_1]\n'
+            argv += [e]
+        else:
+            argv += ['--pretend-valid=%s:%s' % (e, draw(inline_expr()))]
+            stdin = b'[OP_1]\n'
+    elif kind in ('script', 'script-z'):
         script, stack = draw(G.grammar_script(with_sig=True))
         if kind == 'script-z':
             ops = sorted(R.DISABLED)
@@ -135,9 +151,36 @@ def btcdeb_cmd(draw):
     return dict(tool='btcdeb', argv=argv, stdin=stdin, component=comp)
 
 
+INLINE_FUNS = ['echo', 'hex', 'int', 'reverse', 'sha256', 'ripemd160', 'hash256', 'hash160', 'base58chkenc', 'base58chkdec', 'bech32enc', 'bech32dec', 'verify_sig', 'combine_pubkeys', 'tweak_pubkey',
+               'pubkey_to_xpubkey', 'addr_to_spk', 'spk_to_addr', 'add', 'sub', 'jacobi', 'tagged_hash', 'taproot_tweak_pubkey', 'prefix_compact_size', 'nosuchfun', 'len', 'bech32menc']
+INLINE_ARGS = ['', '0', '1', '-1', '17', '0x', '0x00', '0x80', '0x0000000080', '0xffffffffff', '0x' + '00' * 32, '0x' + 'ff' * 32, '0x' + '01' * 33, '0x02' + '11' * 32, '0x' + 'ab' * 64, '0x' + 'ab' * 65,
+               '99999999999999999999', '-9223372036854775808', 'abc', 'bc1qw508d6qejxtdg4y5r3zarvary0c5xw7kv8f3t4', '1PqhyaTFgaHeYVmi5qBV9AjjeiyiTV1hpx', '0x5120' + '22' * 32, '0x0014' + '33' * 20, 'TapLeaf']
+
+
+@st.composite
+def inline_expr(draw, depth=1):
+    """fn(arg) / fn([a b]) / fn(fn(arg)) expressions: the inline function syntax every tool accepts wherever a value is read"""
+    f = draw(st.one_of(st.sampled_from(INLINE_FUNS), st.sampled_from(['int', 'int', 'jacobi', 'jacobi', 'add', 'sub', 'hex', 'bech32dec', 'base58chkdec', 'spk_to_addr'])))
+    if f == 'jacobi' and draw(st.booleans()):
+        # jacobi([n k]): both 32-byte values; k = 0, 1, 2 (even), n = 0, n = k
+        vals = ['0x' + '00' * 32, '0x' + '00' * 31 + '01', '0x' + '00' * 31 + '02', '0x' + 'ff' * 32, '0x' + '0102030405060708' * 4]
+        return 'jacobi([%s %s])' % (draw(st.sampled_from(vals)), draw(st.sampled_from(vals)))
+    k = draw(st.integers(0, 5))
+    if k == 0 and depth > 0:
+        inner = draw(inline_expr(depth - 1))
+    elif k <= 2:
+        inner = '[' + ' '.join(draw(st.sampled_from(INLINE_ARGS)) for _ in range(draw(st.integers(0, 3)))) + ']'
+    else:
+        inner = draw(st.sampled_from(INLINE_ARGS))
+    return '%s(%s)' % (f, inner)
+
+
 @st.composite
 def btcc_cmd(draw):
-    kind = draw(st.sampled_from(['tokens', 'junk', 'deep', 'long', 'unbalanced']))
+    kind = draw(st.sampled_from(['tokens', 'junk', 'deep', 'long', 'unbalanced', 'inline', 'inline']))
+    if kind == 'inline':
+        argv = [draw(st.one_of(inline_expr(), st.sampled_from(['OP_1', '0x01', '[OP_1]']))) for _ in range(draw(st.integers(1, 3)))]
+        return dict(tool='btcc', argv=argv, stdin=b'', component='btcc:inline')
     if kind == 'tokens':
         toks = draw(st.lists(c07.tokens(3), min_size=0, max_size=10))
         from ..ref import asm_model as A
